@@ -49,7 +49,15 @@ def respec(lines):
         if t and t[0] == "#":
             pre, t = "# ", t[1:]
         if len(t) >= 3 and t[1] == "=" and t[2] == "{":
-            body = " ".join(t[3:-1]).replace(" ,", ",")
+            elems, cur = [], []
+            for x in t[3:-1]:
+                if x == ",":
+                    elems.append(cur)
+                    cur = []
+                else:
+                    cur.append(x)
+            elems.append(cur)
+            body = ", ".join(" ".join(e) for e in elems)      # (an element may print as nothing: user pointers)
             txt = "%s = {%s}" % (t[0], body)
         elif len(t) >= 2 and t[1] == "=":
             txt = "%s=%s" % (t[0], "".join(t[2:]))
